@@ -402,13 +402,7 @@ func (e *Exec) atLoopHead(s *State, b *ssa.BasicBlock, lr loopRef, depth int) {
 		// back edge: invariant must be preserved; path ends
 		env := e.invEnv(s, lc)
 		for _, inv := range spec.Invs {
-			g, facts := e.evalClause(inv.Expr, env)
-			st := s
-			if len(facts) > 0 {
-				st = s.clone()
-				st.pc = append(st.pc, facts...)
-			}
-			e.obligeK(fmt.Sprintf("loop%d/invariant-preserved", lr.idx), fmt.Sprint(inv.Ord), append(append([]string{}, e.con.Tags...), inv.Tags...), st, g, "loop "+fmt.Sprint(lr.idx)+" invariant "+inv.Src)
+			e.prove(fmt.Sprintf("loop%d/invariant-preserved", lr.idx), fmt.Sprint(inv.Ord), append(append([]string{}, e.con.Tags...), inv.Tags...), s, inv.Expr, env, "loop "+fmt.Sprint(lr.idx)+" invariant "+inv.Src)
 		}
 		e.loopFrameCheck(s, b, lr.idx, "preserved")
 		if spec.Decreases != nil {
@@ -422,13 +416,7 @@ func (e *Exec) atLoopHead(s *State, b *ssa.BasicBlock, lr loopRef, depth int) {
 	// entry: invariant must hold
 	env := e.invEnv(s, lc)
 	for _, inv := range spec.Invs {
-		g, facts := e.evalClause(inv.Expr, env)
-		st := s
-		if len(facts) > 0 {
-			st = s.clone()
-			st.pc = append(st.pc, facts...)
-		}
-		e.obligeK(fmt.Sprintf("loop%d/invariant-entry", lr.idx), fmt.Sprint(inv.Ord), append(append([]string{}, e.con.Tags...), inv.Tags...), st, g, "loop "+fmt.Sprint(lr.idx)+" invariant "+inv.Src)
+		e.prove(fmt.Sprintf("loop%d/invariant-entry", lr.idx), fmt.Sprint(inv.Ord), append(append([]string{}, e.con.Tags...), inv.Tags...), s, inv.Expr, env, "loop "+fmt.Sprint(lr.idx)+" invariant "+inv.Src)
 	}
 	// havoc
 	h := s.clone()
@@ -510,7 +498,7 @@ func (e *Exec) entryModSet() *modSet {
 // function entry keep their entry values at every loop head
 func (e *Exec) frameGoal(s *State, fam string) (string, bool) {
 	sig := e.fams[fam]
-	if len(sig.Args) == 0 || sig.Args[0] != "Ref" || isGhostFam(fam) {
+	if len(sig.Args) == 0 || sig.Args[0] != "Ref" || fam == "$alloc" || strings.HasPrefix(fam, "$unbox_") {
 		return "", false
 	}
 	ms := e.entryModSet()
@@ -626,13 +614,7 @@ func (e *Exec) atExit(s *State, res []Val) {
 	e.curPos = token.NoPos
 	env := e.exitEnv(s, res)
 	for _, en := range con.Ensures {
-		g, facts := e.evalClause(en.Expr, env)
-		st := s
-		if len(facts) > 0 {
-			st = s.clone()
-			st.pc = append(st.pc, facts...)
-		}
-		e.obligeK("ensures", fmt.Sprint(en.Ord), en.Tags, st, g, "ensures "+en.Src)
+		e.prove("ensures", fmt.Sprint(en.Ord), en.Tags, s, en.Expr, env, "ensures "+en.Src)
 	}
 	e.frameObligations(s)
 	if len(s.defers) > 0 {
@@ -833,14 +815,10 @@ func (w *World) verifyLemma(lm *Lemma) (fr *FuncResult) {
 			s.assume("%s", g)
 			e.entry = s.clone()
 		case "assert":
-			g, facts := e.evalClause(st.Expr, env)
-			s2 := s
-			if len(facts) > 0 {
-				s2 = s.clone()
-				s2.pc = append(s2.pc, facts...)
-			}
-			e.obligeK("lemma", fmt.Sprint(nAssert), st.Tags, s2, g, "assert "+st.Src)
+			e.prove("lemma", fmt.Sprint(nAssert), st.Tags, s, st.Expr, env, "assert "+st.Src)
 			nAssert++
+			g, facts := e.evalClause(st.Expr, env)
+			s.pc = append(s.pc, facts...)
 			s.assume("%s", g)
 		case "call":
 			con, args := e.lemmaCallee(st, env)
